@@ -40,6 +40,7 @@ type CaseB struct {
 }
 
 type childCfg struct {
+	Mode      string  `json:"mode,omitempty"` // "" = apply the history; "restart" = start a teamserver on Dir and report what it restored (sub-check c)
 	H         History `json:"h"`
 	Dir       string  `json:"dir"`
 	StopAfter int     `json:"stop_after"` // idle after END of this op (-1: never)
@@ -61,6 +62,10 @@ func TestC10Child(t *testing.T) {
 	}
 	out := os.NewFile(3, "report")
 	say := func(s string) { out.WriteString(s + "\n") } // one write(2) per line, unbuffered
+	if cfg.Mode == "restart" {
+		restartChild(cfg, say)
+		return
+	}
 	w, err := pvx.OpenWorld(cfg.Dir)
 	if err != nil {
 		say("ERROR " + err.Error())
@@ -138,7 +143,11 @@ func checkB(c CaseB) *core.Violation {
 	if err != nil {
 		panic("harness: " + err.Error())
 	}
-	cmd := exec.Command(os.Args[0], "-test.run=^TestC10Child$", "-test.count=1", "-test.timeout=120s")
+	self, err := os.Executable()
+	if err != nil {
+		panic("harness: " + err.Error())
+	}
+	cmd := exec.Command(self, "-test.run=^TestC10Child$", "-test.count=1", "-test.timeout=120s")
 	cmd.Env = append(os.Environ(), "VERIF_C10_CHILD="+cf, "VERIF_OUT=", "VERIF_REPLAY=")
 	cmd.ExtraFiles = []*os.File{pw}
 	cmd.Dir = dir
